@@ -10,7 +10,7 @@ import tempfile
 import warnings
 
 from .core import exc_class, hx, unhx
-from .fstree import (shuffled_scandir, token_bytes, wide_tree, CHAIN_FILE, CHAIN_NAME, FILE_MODES, ROOT_SPELLINGS, apply_ops, chain_file, chain_has_file, collect_ids,
+from .fstree import (nfc_twin, shuffled_scandir, token_bytes, unicode_variant_bytes, wide_tree, CHAIN_FILE, CHAIN_NAME, FILE_MODES, ROOT_SPELLINGS, apply_ops, chain_file, chain_has_file, collect_ids,
                      count_nodes, enc_chain, enc_tree, gen_name, gen_reread, gen_tree, has_kind, impl_chain, materialise, mutate_tree,
                      other_spelling, ref_chain, ref_ids, shrink_tree, spelled_root, subdirs)
 
@@ -98,7 +98,7 @@ ASSUMPTIONS = ["names within a directory are distinct, non-empty, free of '/' an
                "eager vs lazy loading of content data, the sha1/sha256/blake2s256 digests and the `reason`/`status` fields are "
                "checked on the implementation only (the model carries the bytes and the sha1_git)"]
 
-NAMED_POOL = [b"dir", b"Dir", b"DIR", b".git", b".GIT", b"\xc3\x89t\xc3\xa9", b"\xc3\xa9t\xc3\xa9", b"node_modules",
+NAMED_POOL = [b"dir", b"Dir", b"DIR", b".git", b".GIT", b"\xc3\x89t\xc3\xa9", b"\xc3\xa9t\xc3\xa9", b"e\xcc\x81", b"node_modules",
               b"\xc9", b"\xe9", b"empty", b"e"]
 
 
@@ -266,6 +266,10 @@ def gen_patterns(rng, t):
             p = b"*" + _utf8_pattern(rng.choice(names)) + b"*"
         elif q == 13 and dirs:
             p = _utf8_pattern(rng.choice(dirs))
+        if rng.random() < 0.08:     # Unicode: a literal that is not in normal form C, or the NFC twin of a name of the tree
+            twins = [nfc_twin(x) for x in names if nfc_twin(x)]
+            u = _utf8_pattern(rng.choice(twins) if twins and rng.random() < 0.6 else unicode_variant_bytes(rng))
+            p = rng.choice([u, u + b"*", b"*" + u, b"*/" + u])
         if rng.random() < 0.12:     # a literal harvested from the code as (part of) the literal text of a pattern
             tok = _utf8_pattern(token_bytes(rng, rng.choice([b"", b"a"])))
             p = rng.choice([tok, tok + b"*", b"*" + tok, b"*/" + tok, tok + b"/*", (p or b"") + tok])
@@ -313,6 +317,11 @@ def gen_filter(rng, t):
             pool.append(_swapcase(rng.choice(names)))
         elif q < 0.8:
             pool.append(token_bytes(rng, rng.choice([b"", b"dir"]), slash=rng.random() < 0.3))     # a literal of the code as a name
+        elif q < 0.88:
+            # Unicode: the NFC twin of a name of the tree (another name: must NOT make that entry disappear), or a sequence
+            # that is not in normal form C
+            twins = [nfc_twin(x) for x in names if nfc_twin(x)]
+            pool.append(rng.choice(twins) if twins and rng.random() < 0.6 else unicode_variant_bytes(rng))
         else:
             pool.append(rng.choice(NAMED_POOL))
     pool = sorted({p for p in pool if p})
@@ -407,6 +416,12 @@ FIXED = [
     # patterns and names that are not valid UTF-8 (UnicodeDecodeError before 5529d3b)
     {"tree": D((b"\xff\xfe", D((b"k", R(b"1")))), (b"\xc3", D((b"k", R(b"2")))), (b"ok", D((b"\x80", R(b"3")), (b"a", R(b"4"))))),
      "filter": {"pats": [b"\xff*".hex(), b"*/\x80".hex(), b"[\xc0-\xff]".hex()], "abs": [False, True, False]}, "limit": None, "root": "rel", "fspell": "abs"},
+    # Unicode: names are bytes - a decomposed name and its composed (NFC) twin are two entries, filters compare bytes
+    {"tree": D((b"e\xcc\x81", D((b"k", R(b"decomposed")))), (b"\xc3\xa9", D((b"k", R(b"composed")))), (b"\xe2\x84\xab", R(b"angstrom sign")),
+               (b"\xc3\x85", L(b"A\xcc\x8a"))),
+     "filter": {"named": [b"\xc3\xa9".hex()], "cs": False}, "limit": None},
+    {"tree": D((b"e\xcc\x81", D((b"k", R(b"decomposed")))), (b"\xc3\xa9", D((b"k", R(b"composed")))), (b"\xe2\x84\xab", R(b"angstrom sign"))),
+     "filter": {"pats": [b"e\xcc\x81".hex(), b"\xc3\x85".hex()], "abs": [False, False]}, "limit": None, "root": "rel", "fspell": "abs"},
     # re-read after in-place modification
     {"tree": D((b"a", R(b"same")), (b"b", R(b"sam3", 0o755)), (b"s", D((b"c", R(b"hello")), (b"l", L(b"c")))), (b"e", D())),
      "filter": "empty", "limit": 4, "reread": {"seed": 1, "n": 5, "mode": "edit"}},
@@ -592,9 +607,16 @@ def _impl_chain(c):
 def _oracle_chain(c, ires, mres):
     what = "a chain of %d nested directories (filter %s)" % (c["chain"], enc_filter(c["filter"])[:40])
     if "error" in ires:
+        # a symbolic link longer than max_content_length that the walk reaches makes from_disk raise by design (C13_symlink_limit):
+        # legitimate exactly when the model, given the same chain, filter and limit, says so
+        if "Symlink too large" in ires["error"] and isinstance(mres, dict) and mres.get("rootid") == "err SymlinkTooLarge" \
+                and c.get("limit") is not None:
+            return None
         return "from_disk raised %s on %s" % (ires["error"], what)
     if "export_error" in ires:
         return "the export raised %s on %s" % (ires["export_error"], what)
+    if isinstance(mres, dict) and mres.get("rootid") == "err SymlinkTooLarge":
+        return "a symlink longer than max_content_length was read without raising on %s" % what
     p = prune_chain(c, c["filter"])
     ref = ref_chain(p)
     if ires["chain_nolimit"] != ref:
@@ -1277,6 +1299,10 @@ def compare(c, ires, mres):
                 return "glob model disagrees with fnmatch.translate+re: pattern %r text %r: re says %s, model says %s" % (unhx(ph), unhx(th), a, b)
         return None
     if _is_chain(c):
+        if mres.get("rootid") == "err SymlinkTooLarge" or "Symlink too large" in str(ires.get("error", "")):
+            if (mres.get("rootid") == "err SymlinkTooLarge") != ("Symlink too large" in str(ires.get("error", ""))):
+                return "deep chain: model says %s, implementation %s" % (mres.get("rootid"), ires.get("error", "no error"))
+            return None
         if mres["rootid"] != mres["rootid_rev"] or mres["rootid"] != mres["pruned_root"]:
             return "MODEL: rootid (both orders) / node_id of the pruned tree disagree on a deep chain (model bug): %s" % str(mres)[:150]
         if mres["rootid"] != ires["chain"]["levels"][0]:
